@@ -432,7 +432,9 @@ func fmtMapF(m map[int32]float64) string {
 }
 
 // StaleHist / StaleFloatHist are the histogram staleness markers.
-func StaleHist() *histogram.Histogram { return &histogram.Histogram{Sum: math.Float64frombits(value.StaleNaN)} }
+func StaleHist() *histogram.Histogram {
+	return &histogram.Histogram{Sum: math.Float64frombits(value.StaleNaN)}
+}
 func StaleFloatHist() *histogram.FloatHistogram {
 	return &histogram.FloatHistogram{Sum: math.Float64frombits(value.StaleNaN)}
 }
